@@ -132,12 +132,36 @@ fn run_c08(ctx: &mut Ctx, rep: &mut Report) {
         if !ctx.time_left() { rep.note("time budget reached"); break }
         let params = GenParams { tals: 1 + rng.usize(2), max_cas: 4 + rng.usize(9), max_depth: 1 + rng.usize(3), max_objects: 2 + rng.usize(6), repos: 2, obj_faults: 0, point_faults: 0, overlaps: true, rrdp: false };
         let mut w = generate(&mut rng, now_ts(), &params);
-        let slash0 = rng.chance(1, 4);
+        let slash0 = rng.chance(2, 5);
         if slash0 {
             // a root and one of its children hold 0/0
             let root = w.tals[0].root;
             w.cas[root].slash0 = true;
             if let Some(c) = w.children(root).first() { w.cas[*c].slash0 = true; }
+            // Holders of the whole address family publish ROAs whose prefixes cover (are less specific than)
+            // other CAs' blocks, or cover several of them: the "covering" side of the intersection test.
+            let holders: Vec<usize> = (0..w.cas.len()).filter(|c| w.cas[*c].slash0).collect();
+            for h in holders {
+                let mut prefixes = Vec::new();
+                for _ in 0..1 + rng.usize(3) {
+                    let bb = rng.usize(w.cas.len());
+                    if rng.bool() {
+                        let (bits, _) = block_v4(bb);
+                        let l = 8 + rng.usize(8) as u8;      // /8../15, covers block bb (a /16)
+                        let m = u128::MAX << (128 - l as u32);
+                        prefixes.push(Pfx { v4: true, bits: bits & m, len: l, max: if rng.bool() { None } else { Some(l + rng.usize(6) as u8) } });
+                    } else {
+                        let (bits, _) = block_v6(bb);
+                        let l = 32 + rng.usize(16) as u8;    // /32../47, covers block bb (a /48)
+                        let m = u128::MAX << (128 - l as u32);
+                        prefixes.push(Pfx { v4: false, bits: bits & m, len: l, max: if rng.bool() { None } else { Some(l + rng.usize(10) as u8) } });
+                    }
+                }
+                prefixes.sort(); prefixes.dedup_by(|a, b| a.v4 == b.v4 && a.bits == b.bits && a.len == b.len);
+                let serial = 900 + w.cas[h].objects.len() as u64;
+                w.cas[h].objects.push(Obj { name: format!("cover{h}.roa"), kind: ObjKind::Roa { asn: block_as(h).0 + rng.u32() % 100, prefixes },
+                    serial, nb: w.now - DAY, na: w.now + 30 * DAY, fault: None, salt: 0 });
+            }
         }
         // Make 1-3 non-root points unusable.
         let victims: Vec<usize> = (0..w.cas.len()).filter(|c| w.cas[*c].parent.is_some()).collect();
@@ -175,7 +199,10 @@ fn run_c08(ctx: &mut Ctx, rep: &mut Report) {
         }
         judge(&e, &o, &b, "C08", rep, replay);
         let overlapped = all.iter().any(|v| hits(v));
-        rep.class(format!("{:?}|rej{}|overlap{}|slash0{}", pol.unsafe_vrps, e.rejected.len().min(3), overlapped as u8, slash0 as u8));
+        // relation of overlapping VRPs to the rejected block: nested/equal vs covering
+        let covering = all.iter().filter(|v| hits(v)).any(|v| if v.0 { v.2 < 16 } else { v.2 < 48 });
+        if covering { rep.count("cases_with_vrp_covering_rejected_block", 1); }
+        rep.class(format!("{:?}|rej{}|overlap{}|cover{}|slash0{}", pol.unsafe_vrps, e.rejected.len().min(3), overlapped as u8, covering as u8, slash0 as u8));
         rep.count("vrps_overlapping_rejected_resources", all.iter().filter(|v| hits(v)).count() as u64);
         if rep.samples.len() < 2 && overlapped { rep.sample(json!({"rejected_cas": e.rejected, "unsafe_vrps_policy": format!("{:?}", pol.unsafe_vrps), "dropped": e.unsafe_dropped.iter().map(fmt_vrp).collect::<Vec<_>>()})); }
     }
